@@ -5,6 +5,7 @@ package recordlayer
 
 import (
 	"encoding/binary"
+	"math"
 
 	dtlserrors "github.com/pion/dtls/v3/internal/errors"
 	"github.com/pion/dtls/v3/pkg/protocol"
@@ -56,7 +57,10 @@ func (r *RecordLayer) Marshal() ([]byte, error) {
 		return nil, err
 	}
 
-	r.Header.ContentLen = uint16(len(contentRaw)) //nolint:gosec // G115
+	if len(contentRaw) > math.MaxUint16 {
+		return nil, ErrInvalidPacketLength
+	}
+	r.Header.ContentLen = uint16(len(contentRaw)) //nolint:gosec // G115: bounded above.
 	r.Header.ContentType = r.Content.ContentType()
 
 	headerRaw, err := r.Header.Marshal()
